@@ -4,6 +4,7 @@ package zzverif
 
 import (
 	lucene "github.com/grindlemire/go-lucene"
+	"github.com/grindlemire/go-lucene/pkg/lucene/expr"
 )
 
 func init() {
@@ -17,6 +18,12 @@ func treeOps() []int {
 	}
 	if rtParam("OPS") == 2 {
 		return []int{nOr, nAnd, nNot, nMustNot}
+	}
+	if rtParam("OPS") == 4 {
+		return []int{nOr, nNot, nBoost}
+	}
+	if rtParam("OPS") == 3 {
+		return []int{nOr, nAnd, nNot, nBoost, nFuzzy, nMustNot, nMust, nGroup}
 	}
 	return allOps
 }
@@ -33,7 +40,14 @@ func leafForms() []int {
 		for i := 0; i < lfCount; i++ {
 			all = append(all, i)
 		}
-		return append(all, lfEmptyQuoted, lfNonASCII, lfEqSpecial, lfListInt, lfRangeBig, lfEqBig)
+		return append(all, lfEmptyQuoted, lfNonASCII, lfEqSpecial, lfListInt, lfRangeBig, lfEqBig, lfWildField, lfQuotedDigits, lfRangeMixed)
+	}
+	if rtParam("LEAVES") == 7 { // default-field alphabet: the full one plus quoted bare terms with wildcard characters
+		all := make([]int, 0, lfCount+2)
+		for i := 0; i < lfCount; i++ {
+			all = append(all, i)
+		}
+		return append(all, lfBareQuotedWild, lfEmptyQuoted)
 	}
 	if rtParam("LEAVES") == 2 {
 		return []int{lfBare, lfEqStr, lfEqInt, lfGt, lfRangeIncl, lfList, lfWild, lfBareInt}
@@ -49,7 +63,7 @@ func leafForms() []int {
 }
 
 func nodeTag(n *node) string {
-	names := []string{"leaf", "OR", "AND", "NOT", "BOOST", "FUZZY", "MUSTNOT", "MUST"}
+	names := []string{"leaf", "OR", "AND", "NOT", "BOOST", "FUZZY", "MUSTNOT", "MUST", "GROUP"}
 	return names[n.kind]
 }
 
@@ -104,7 +118,7 @@ func init() {
 func operandForm(n *node) string {
 	switch n.kind {
 	case nLeaf:
-		if n.lf.form == lfBare || n.lf.form == lfBareInt || n.lf.form == lfBareWild {
+		if n.lf.form == lfBare || n.lf.form == lfBareInt || n.lf.form == lfBareWild || n.lf.form == lfBareQuotedWild {
 			return "plain"
 		}
 		if n.lf.form >= lfRangeIncl && n.lf.form <= lfRangeStr {
@@ -129,6 +143,48 @@ func lastOperand(n *node) *node {
 		}
 	}
 	return n
+}
+
+// firstTokenIsTerm / lastTokenIsTerm: the printed operand starts / ends with a term token (no
+// bracket, prefix operator or bare suffix operator at that end). Juxtaposition is how two such
+// neighbours are written side by side; a gap between them is *eligible*.
+func firstTokenIsTerm(n *node, parenthesised bool) bool {
+	if parenthesised {
+		return false
+	}
+	switch n.kind {
+	case nLeaf, nGroup:
+		return true
+	case nAnd, nOr:
+		return firstTokenIsTerm(n.l, level[n.l.kind] < level[n.kind])
+	case nBoost, nFuzzy:
+		return firstTokenIsTerm(n.l, level[n.l.kind] < level[n.kind])
+	}
+	return false // NOT, +, - start with an operator token
+}
+
+func lastTokenIsTerm(n *node, parenthesised bool) bool {
+	if parenthesised {
+		return false
+	}
+	switch n.kind {
+	case nLeaf:
+		f := n.lf.form
+		// ranges and value lists end with a bracket
+		if (f >= lfRangeIncl && f <= lfRangeStr) || f == lfList {
+			return false
+		}
+		return true
+	case nGroup:
+		return false
+	case nAnd, nOr:
+		return lastTokenIsTerm(n.r, level[n.r.kind] <= level[n.kind])
+	case nNot, nMust, nMustNot:
+		return lastTokenIsTerm(n.l, level[n.l.kind] < level[n.kind])
+	case nBoost, nFuzzy:
+		return n.hasNum // a bare ^ or ~ ends with the operator
+	}
+	return false
 }
 
 // H_TreeJuxtapose (C07): one AND node of the tree written as juxtaposition; whenever both texts
@@ -157,9 +213,15 @@ func H_TreeJuxtapose() {
 		return
 	}
 	rtTag("left=" + operandForm(gap.l) + ",touch=" + operandForm(lastOperand(gap.l)) + ",right=" + operandForm(gap.r))
+	eligible := lastTokenIsTerm(gap.l, level[gap.l.kind] < level[nAnd]) && firstTokenIsTerm(gap.r, level[gap.r.kind] <= level[nAnd])
 	if err2 != nil || e2 == nil {
 		rtReach("juxt-rejected")
-		rtAssert("juxt-accepted", false) // informational only
+		if eligible {
+			// two operands whose neighbouring tokens are both terms may be written side by side
+			rtAssert("eligible-juxt-parses", false)
+		} else {
+			rtAssert("juxt-accepted", false) // informational only
+		}
 		return
 	}
 	rtReach("both-parse")
@@ -170,7 +232,17 @@ func H_TreeJuxtapose() {
 func H_TreeLayout() {
 	t := genTree(rtParam("D"), treeOps(), leafForms())
 	base := printNode(t, 0, &printOpts{})
-	e0, err0 := lucene.Parse(base)
+	dfn := ""
+	if rtParam("DF") == 1 {
+		dfn = "F" // not a field of any generated query (those are lower case)
+	}
+	parse := func(q string) (*expr.Expression, error) {
+		if dfn != "" {
+			return lucene.Parse(q, lucene.WithDefaultField(dfn))
+		}
+		return lucene.Parse(q)
+	}
+	e0, err0 := parse(base)
 	variant := rtParam("VARIANT")
 	o := &printOpts{}
 	switch variant {
@@ -183,6 +255,8 @@ func H_TreeLayout() {
 		o.extraPar = map[*node]bool{all[rtChoose("paren", len(all))]: true}
 	case 3: // redundant parentheses around every field's value
 		o.valuePar = true
+	case 4: // white space between a prefix operator and its operand
+		o.prefixSp = true
 	}
 	text := printNode(t, 0, o)
 	if variant == 0 {
@@ -190,7 +264,7 @@ func H_TreeLayout() {
 	}
 	rtObserve("base", base)
 	rtObserve("variant", text)
-	e1, err1 := lucene.Parse(text)
+	e1, err1 := parse(text)
 	if variant < 2 {
 		rtAssert("same-outcome", (err0 == nil) == (err1 == nil))
 	}
@@ -202,7 +276,17 @@ func H_TreeLayout() {
 	if err1 != nil || e1 == nil {
 		return
 	}
-	rtAssert("variant-same-tree", matchTree(e1, t, "") && e1.String() == e0.String())
+	same := e1.String() == e0.String()
+	hasList := false
+	for _, n := range collect(t, nLeaf, nil) {
+		if n.lf.form == lfList {
+			hasList = true
+		}
+	}
+	if dfn == "" || !hasList { // (a value list under a default field is C11's known finding)
+		same = rtAnd(same, matchTree(e1, t, dfn))
+	}
+	rtAssert("variant-same-tree", same)
 	rtReach("end")
 }
 
@@ -210,11 +294,23 @@ func H_TreeLayout() {
 // accepted, bare operands become field:term and nothing else changes.
 func H_TreeDefaultField() {
 	t := genTree(rtParam("D"), treeOps(), leafForms())
-	text := printNode(t, 0, &printOpts{valuePar: rtParam("VARIANT") == 1})
+	po := &printOpts{valuePar: rtParam("VARIANT") == 1}
+	if rtParam("VARIANT") == 2 { // one redundant pair of parentheses around any node, the whole query included
+		all := collect(t, -1, nil)
+		po.extraPar = map[*node]bool{all[rtChoose("paren", len(all))]: true}
+	}
+	text := printNode(t, 0, po)
 	rtObserve("text", text)
 	// a default field name that is not a field of the query (query fields are lower case letters)
 	var df string
-	if rtParam("DFKIND") == 0 {
+	switch rtParam("DFKIND") {
+	case 2: // leading white space is part of the name
+		df = string([]byte{' ', holeByte("df", "ABCDEFGHIJKLMNOPQRSTUVWXYZ")})
+	case 3: // trailing white space too
+		df = string([]byte{holeByte("df", "ABCDEFGHIJKLMNOPQRSTUVWXYZ"), '\t'})
+	}
+	if rtParam("DFKIND") >= 2 {
+	} else if rtParam("DFKIND") == 0 {
 		df = string([]byte{holeByte("df", "ABCDEFGHIJKLMNOPQRSTUVWXYZ"), holeByte("df", "ABCDEFGHIJKLMNOPQRSTUVWXYZ_0123456789")})
 	} else {
 		df = string([]byte{holeByte("df", "ABCDEFGHIJKLMNOPQRSTUVWXYZ"), ' ', holeByte("df", ";'-")})
